@@ -17,6 +17,8 @@
    (harness/api_wire.py): a real RMCClient on every kind of connection and negotiated minor version, client and server side.
 6. Setter sequences in every spelling of the optional arguments (harness/c20_optseq.py); transport settings x packet kinds x transports
    decoded off the wire with an independent RC4 / zlib reference and the Lean payload model (harness/c20_knobwire.py).
+7. Every documented module as the FIRST import of a fresh interpreter, and ordered pairs of modules that import each other
+   (harness/c20_import.py); histories with a REJECTED setter call in them: the client is as it was (harness/c20_reject.py).
 """
 import importlib, inspect, json, logging, os, re
 import anyio
@@ -743,9 +745,17 @@ def run(ctx):
                 "reliable and UNRELIABLE DATA in both directions on real endpoints in virtual time: every DATA payload, cipher undone by an independent RC4 with the "
                 "prescribed key, is the application's fragment (compression off) or a zlib frame of it (compression on); decoded also by the Lean payload model, "
                 "uncompressed sessions replayed through the Lean L1 endpoint model. "
+                "first import (harness/c20_import.py): every documented module alone as the first import of a fresh interpreter, every ordered pair of documented "
+                "modules on an import cycle of the tree under test (ast import graph, strongly connected components) and a seeded sample of ordered pairs joined by "
+                "an import edge: the module imports, every documented name is there and every constructible documented class constructs, as in the check's own process. "
+                "rejected setter calls (harness/c20_reject.py): rejected values of every set_* discovered black-box (integer sweep -2..2200 + large values, unsupported-"
+                "looking values for every parameter and pair of parameters), rejected x accepted values on both sides of every threshold (ends of the accepted range, "
+                "integer constants the client's module compares with) x 8 history shapes on one object x every public call = the client that never saw the rejected call. "
                 "A case is non-trivial when it "
                 "reaches the code under test; distinct = distinct (kind, inputs)")
     api_inventory.run(ctx)
+    import c20_import
+    import_handle = c20_import.launch(ctx)      # fresh interpreters run in the background while the other families work
     from nintendo.nex import settings as nexsettings
     data = aset.extract(vf.REPO)
     # kernel obligations over the translated settings table and files
@@ -786,7 +796,13 @@ def run(ctx):
     t1 = _time.time()
     import c20_knobwire
     diffs += c20_knobwire.run(ctx, ctx.driver("C08"), ctx.driver("C02"))
-    ctx.extra["seconds_optseq_knobwire"] = [round(t1 - t0, 1), round(_time.time() - t1, 1)]
+    t2 = _time.time()
+    import c20_reject
+    diffs += c20_reject.run(ctx, drv, mods)
+    t3 = _time.time()
+    c20_import.collect(ctx, import_handle)
+    ctx.extra["seconds_optseq_knobwire"] = [round(t1 - t0, 1), round(t2 - t1, 1)]
+    ctx.extra["seconds_reject_importwait"] = [round(t3 - t2, 1), round(_time.time() - t3, 1)]
     ctx.traces_validated += len(diffs) * 0 + ctx.evaluations
     for name in sorted(failed):
         if not [v for v in ctx.violations if not v[3]]:
